@@ -122,3 +122,19 @@ Definition list_set2 {A : Type} (tag : Z) (m : list (list A)) (i j : Z) (v : A) 
     dor row <- list_set tag (nth (Z.to_nat i') m []) j v;
     list_set tag m i' row
   else Err tag.
+(* ---- additions for the training data of the sparse-combo models ---- *)
+(* d[k].append(v) on a collections.defaultdict(list) with integer keys: a missing key is inserted (last) with the
+   empty list first, an existing key keeps its place; the value goes to the end of the key's list *)
+Fixpoint dict_append {V : Type} (d : list (Z * list V)) (k : Z) (v : V) : list (Z * list V) :=
+  match d with
+  | [] => [(k, [v])]
+  | (k', l) :: r => if k' =? k then (k', l ++ [v]) :: r else (k', l) :: dict_append r k v
+  end.
+(* d[(a, b)] = v on a dict keyed by pairs of integers: an existing key keeps its place and gets the new value,
+   a new key goes last *)
+Fixpoint dict2_set {V : Type} (d : list ((Z * Z) * V)) (k : Z * Z) (v : V) : list ((Z * Z) * V) :=
+  match d with
+  | [] => [(k, v)]
+  | (k', v') :: r =>
+      if (fst k' =? fst k) && (snd k' =? snd k) then (k', v) :: r else (k', v') :: dict2_set r k v
+  end.
